@@ -643,6 +643,10 @@ func (s *session) exec(args []string) string {
 			return "err"
 		}
 		return fmt.Sprintf("ver=%d", v)
+	case "opennl": // a new tree object on the same store that is NOT loaded (replay from the empty tree)
+		s.closeTree()
+		s.tree = s.newTree()
+		return "ok"
 	case "close":
 		s.closeTree()
 		return "ok"
